@@ -303,6 +303,35 @@ func (p *ProdGen) Replacement(cls string) sdk.Msg {
 			Recipient: Structured32(4), Caller: make([]byte, 32), Body: []byte("unissued")}
 		raw := in.Bytes()
 		return &ct.MsgReplaceMessage{From: from, OriginalMessage: raw, OriginalAttestation: e.Attest(raw, 0), NewMessageBody: newBody, NewDestinationCaller: newCaller}
+	case "double-fault":
+		// two things wrong at once, everything else in order (honestly attested): a foreign source domain AND a sender that
+		// is not the submitter (another account, or the module's word with a burn-shaped body naming the submitter or not)
+		from := Acct(r.Intn(NAccounts))
+		src := RemoteDomains[r.Intn(len(RemoteDomains))]
+		p.nearN++
+		k := p.nearN
+		sender := ref.Pad32(AcctBytes((AcctIndex(from) + 1 + k%(NAccounts-1)) % NAccounts))
+		body := []byte("double fault")
+		dst := Domains[k%len(Domains)]
+		rec := Structured32(4)
+		if k%2 == 0 {
+			sender = modulePadded
+			dep := ref.Pad32(addrBytes(from))
+			if k%4 == 0 {
+				dep = ref.Pad32(AcctBytes((AcctIndex(from) + 2) % NAccounts))
+			}
+			body = BurnBody(0, ref.Keccak256([]byte(strings.ToLower(e.MintDenom()))), Structured32(5), big.NewInt(int64(1+k%1000)), dep)
+			dst = p.dstWithMessenger()
+			if len(e.M.Messengers[dst]) == 32 {
+				rec = e.M.Messengers[dst]
+			}
+		}
+		in := &InMsg{Version: 0, Src: src, Dst: dst, Nonce: uint64(k % 50), Sender: sender, Recipient: rec, Caller: make([]byte, 32), Body: body}
+		raw := in.Bytes()
+		if k%3 == 0 {
+			return &ct.MsgReplaceDepositForBurn{From: from, OriginalMessage: raw, OriginalAttestation: e.Attest(raw, 0), NewDestinationCaller: Structured32(7), NewMintRecipient: Structured32(6)}
+		}
+		return &ct.MsgReplaceMessage{From: from, OriginalMessage: raw, OriginalAttestation: e.Attest(raw, 0), NewMessageBody: newBody, NewDestinationCaller: newCaller}
 	case "foreign-domain":
 		// an honestly attested inbound-style message (source domain != 4) whose sender names the submitter
 		from := Acct(r.Intn(NAccounts))
@@ -328,7 +357,7 @@ func (p *ProdGen) Replacement(cls string) sdk.Msg {
 var ReplacementClasses = []string{"attested-unissued-nonce", "own-message", "others-message", "unattested", "rotated-set", "user-132-as-deposit", "new-caller-shapes",
 	"own-deposit", "others-deposit", "deposit-via-replace-message", "deposit-unattested", "new-recipient-shapes", "foreign-domain", "forged-module-message",
 	"own-deposit-same-recipient", "own-deposit-unchanged", "own-message-unchanged", "attested-crafted-version", "own-message-body-is-original", "attested-crafted-burn-token",
-	"near-sender-message", "near-depositor-deposit"}
+	"near-sender-message", "near-depositor-deposit", "double-fault"}
 
 // nearAddress returns an address of the same length that differs from a in a small, structured way: one bit, the
 // same change in two bytes that sit 1/2/4/8/16 positions apart, a compensating +k/-k pair, two bytes exchanged, the
